@@ -78,6 +78,8 @@ func init() {
 			rulePoolsAppendOnly(c, "C05.8")
 			ruleLaneIntegrity(c, "C05.8")
 			ruleProviderCallOnlyInItsStatement(c, "C05.10")
+			rulePoolCountIsAntichain(c, "C05.11")
+			ruleQueueIsFIFO(c, "C05.9")
 			ruleSourcesSeededFirst(c, "C05.9")
 			ruleArgminOverCandidates(c, "C05.9")
 			ruleSchedulerReadsAsyncFlag(c, "C05.9")
@@ -93,6 +95,7 @@ func init() {
 		id: "C06", withTestdata: true,
 		run: func(c *Ctx) {
 			ruleStmtOrder(c, "C06.1")
+			ruleLaneIntegrity(c, "C06.12")
 			ruleHandlerNeverNil(c, "C06.2")
 			ruleErrorFlow(c, "C06.3", true, false, false)
 			ruleIsWaitTable(c, "C06.5")
@@ -127,6 +130,7 @@ func init() {
 			ruleClosedEmission(c, "C07.6")
 			ruleHandlerDiscipline(c, "C07.7")
 			ruleDoneAndErrSameContext(c, "C07.9")
+			ruleWrapperIdentity(c, "C07.10")
 			ruleHandlerNeverNil(c, "C07.1")
 			ruleWhoMayCall(c, "C07.9", "(*InjectorParam).Ref", "reference counts and channel flags are decided while the graph is built (Build), never while code is emitted", "(*Graph).Build")
 			ruleWhoMayCall(c, "C07.9", "(*InjectorProviderCallStmt).channelsWait", "a wait is emitted only by a provider statement for its own arguments", "(*InjectorProviderCallStmt).Stmt")
@@ -154,6 +158,8 @@ func init() {
 			ruleSameContextPredicate(c, "C08.7")
 			ruleTemplatesNotPatched(c, "C08.8")
 			ruleCallerLaneChoice(c, "C08.9")
+			ruleParamNamesWriteOnce(c, "C08.11")
+			ruleQueueIsFIFO(c, "C08.10")
 			ruleSourcesSeededFirst(c, "C08.10")
 			ruleArgminOverCandidates(c, "C08.10")
 			coRun(c, "C08.3", coLeaks)
